@@ -909,3 +909,50 @@ def family_X(seed: int, count: int) -> List[Spec]:
         sp.events = ["RE", "GO", "BACK"] + (["SLOW"] if "SLOW" in A["on"] else []) + (["IN"] if shape == "nested" else [])
         out.append(sp)
     return out
+
+
+# ---------------------------------------------------------------------------------------
+# Family V: invoked services (driver-controlled completion), with timers and slow actions around them
+
+def family_V(seed: int, count: int) -> List[Spec]:
+    rng = random.Random(seed)
+    out = []
+    shapes = ["one", "no_onerror", "two", "with_after", "nested", "reenter_done"]
+    for i in range(count):
+        shape = shapes[i % len(shapes)]
+        inv = lambda iid, src, done, err=True: {"src": src, "id": iid,
+                                                "onDone": {"target": done, "actions": [f"tr:done:{iid}"]},
+                                                **({"onError": {"target": "#m.C", "actions": [f"tr:err:{iid}"]}} if err else {})}
+        A: Dict[str, Any] = {"entry": ["en:m.A"], "exit": ["ex:m.A"], "on": {}}
+        B: Dict[str, Any] = {"entry": ["en:m.B"], "exit": ["ex:m.B"], "on": {"BACK": {"target": "#m.A", "actions": ["tr:back"]}}}
+        C: Dict[str, Any] = {"entry": ["en:m.C"], "exit": ["ex:m.C"], "on": {"BACK": {"target": "#m.A", "actions": ["tr:backc"]}}}
+        services = {"s1": "driver"}
+        if shape == "one":
+            A["invoke"] = inv("i1", "s1", "#m.B")
+        elif shape == "no_onerror":
+            A["invoke"] = inv("i1", "s1", "#m.B", err=False)
+        elif shape == "two":
+            A["invoke"] = [inv("i1", "s1", "#m.B"), inv("i2", "s2", "#m.C", err=rng.random() < 0.5)]
+            services["s2"] = "driver"
+        elif shape == "with_after":
+            A["invoke"] = inv("i1", "s1", "#m.B")
+            A["after"] = {"50": {"target": "#m.C", "actions": ["tr:af"]}}
+        elif shape == "nested":
+            A = {"initial": "a1", "entry": ["en:m.A"], "exit": ["ex:m.A"], "on": {}, "invoke": inv("iA", "s1", "#m.B"),
+                 "states": {"a1": {"entry": ["en:m.A.a1"], "exit": ["ex:m.A.a1"], "invoke": inv("i1", "s2", "#m.A.a2"),
+                                   "on": {"IN": {"target": "#m.A.a2", "actions": ["tr:in"]}}},
+                            "a2": {"entry": ["en:m.A.a2"], "exit": ["ex:m.A.a2"], "on": {"IN": {"target": "#m.A.a1", "actions": ["tr:in2"]}}}}}
+            services["s2"] = "driver"
+        elif shape == "reenter_done":
+            A["invoke"] = {"src": "s1", "id": "i1", "onDone": {"target": "#m.A", "reenter": True, "actions": ["tr:done:i1"]},
+                           "onError": {"target": "#m.C", "actions": ["tr:err:i1"]}}
+        A["on"].update({"RE": {"target": "#m.A", "reenter": True, "actions": ["tr:re"]},
+                        "GO": {"target": "#m.B", "actions": ["tr:go"]}})
+        if rng.random() < 0.7:
+            A["on"]["SLOW"] = {"actions": ["tr:slow", "slow:100"]}
+        cfg = {"id": "m", "initial": "A", "entry": ["en:m"], "exit": ["ex:m"], "states": {"A": A, "B": B, "C": C}}
+        sp = Spec(cfg, "V", f"V-{seed}-{i}-{shape}")
+        sp.services = services
+        sp.events = ["RE", "GO", "BACK"] + (["SLOW"] if "SLOW" in A["on"] else []) + (["IN"] if shape == "nested" else [])
+        out.append(sp)
+    return out
